@@ -1265,6 +1265,20 @@ func gen(r *vlib.R, n int, tier string, emit func(string)) {
 				l, p := genList(r, 4)
 				if i > 0 && r.Chance(1, 2) {
 					l = first // overlapping / identical networks across views
+				} else if i > 0 && len(pool) > 0 && r.Chance(1, 2) {
+					// a WIDER network that starts where a network of an earlier view
+					// starts (10.0.0.0/24 declared first, then 10.0.0.0/8): sources in
+					// the wider one and outside the narrower one belong to this view
+					b := vlib.Pick(r, pool).Masked()
+					if b.Bits() > 0 {
+						fam, hexa := 4, vlib.Hex(b.Addr().AsSlice())
+						if b.Addr().Is6() {
+							fam = 6
+						}
+						wide := netip.PrefixFrom(b.Addr(), r.Intn(b.Bits()))
+						l = fmt.Sprintf("%d:%s/%d", fam, hexa, wide.Bits())
+						p = []netip.Prefix{wide}
+					}
 				}
 				if i == 0 {
 					first = l
